@@ -102,5 +102,6 @@ def calculate_cross_sectional_area_of_interaction(ionization_energy_: Quantity,
     })
     # nsolve() only works with numerical equations
     eqn = evaluate_expression(eqn)
-    result_expr = nsolve(eqn, cross_section_sym, 1)
+    # NOTE: the stopping tolerance of `nsolve` is absolute while the root is of the order of 1e-18, hence extra precision
+    result_expr = nsolve(eqn, cross_section_sym, 1, prec=50)
     return Quantity(result_expr, dimension=units.area)
